@@ -433,7 +433,7 @@ pub fn replay(_e: &str, case: &serde_json::Value) -> Result<(), String> {
 }
 
 pub fn run(ctx: &Ctx) -> Report {
-    let (stats, failure) = run_proptest(ctx, "console", 151, ctx.n(200_000, 4_000_000), strategy, |c: &KCase, st| check(c, st));
+    let (stats, failure) = run_proptest(ctx, "console", 151, ctx.n(200_000, 12_000_000), strategy, |c: &KCase, st| check(c, st));
     Report {
         stats,
         failure,
